@@ -66,6 +66,44 @@ def obligations(ctx, tier):
                         return ("some", W.wrap(A, v))
                     out += core.g_row(K, PROP, tr(A, FP, [], "from_" + ty),
                                       [(n, (lambda v=v, ty=ty: lambda W: {0: PI(ty, v)})(), ex2) for n, v in c09.prim_reps(ty)])
+            # ---- to_<prim> for every primitive, on the value grid of C13 (decided where the answer is reached before the digit loop)
+            from . import c13
+            for ty in PRIM_INTS:
+                fid = tr(A, TP, [], "to_" + ty)
+                if F.lookup(fid) is None:
+                    continue
+                b = c13.PB[ty]
+                lo, hi = (-(1 << (b - 1)), (1 << (b - 1)) - 1) if ty[0] == "i" else (0, (1 << b) - 1)
+                cands = [0, 1, 5, hi, hi - 1, hi + 1, (hi + 1) // 2, (hi + 1) // 2 - 1, 2 * (hi + 1) - 1, 200, 255, 256, 1 << 40]
+                if sg:
+                    cands += [-1, -5, lo, lo + 1, lo - 1, -(1 << 40), -200]
+
+                def ext(W, env, lo=lo, hi=hi, ty=ty):
+                    v = env[0].v
+                    return ("some", PI(ty, v)) if lo <= v <= hi else ("none",)
+                repst = []
+                for v in cands:
+                    def env_t(W, v=v, A=A):
+                        alo, ahi = arith.rng(W, A)
+                        return {0: W.wrap(A, min(max(v, alo), ahi))}
+                    repst.append(("g%s" % str(v).replace("-", "n"), env_t, ext))
+                out += core.g_row(K, PROP, fid, repst)
+            # ---- from_<prim> for every primitive: Some exactly when the value is representable
+            for ty in PRIM_INTS:
+                fid = tr(A, FP, [], "from_" + ty)
+                if F.lookup(fid) is None:
+                    continue
+
+                def exfp(W, env, A=A):
+                    v = env[0].v
+                    alo, ahi = arith.rng(W, A)
+                    return ("some", W.wrap(A, v)) if alo <= v <= ahi else ("none",)
+                b = c13.PB[ty]
+                extra = [("w%d" % k, v) for k, v in enumerate([127, 128, 255, 256, 32767, 32768, 65535, 65536, (1 << 31) - 1, 1 << 31, (1 << 32) - 1, 1 << 32,
+                                                                (1 << 63) - 1, 1 << 63, (1 << 64) - 1, 1 << 64, (1 << 127) - 1, 1 << 127, -128, -129, -32768, -32769,
+                                                                -(1 << 31), -(1 << 31) - 1, -(1 << 63), -(1 << 63) - 1])
+                         if ((-(1 << (b - 1)) <= v <= (1 << (b - 1)) - 1) if ty[0] == "i" else (0 <= v <= (1 << b) - 1))]
+                out += core.g_row(K, PROP, fid, [("p" + n, (lambda v=v, ty=ty: lambda W: {0: PI(ty, v)})(), exfp) for n, v in c09.prim_reps(ty) + extra])
             # from_f32 / from_f64
             for ty, base in (("f32", c14.F32), ("f64", c14.F64)):
                 def exf(W, env, A=A):
